@@ -10,7 +10,12 @@ Static clauses:
             a reviewed row in tables/e1_rows.json;
           anything else is a finding.
   LOOP    every natural loop in that closure is iterator-driven or bounded by a literal
-Not decided: termination of recursion / stack depth; panics inside pest itself beyond the Pratt shape rule.
+  G-REPARSE  pest is a PEG engine without memoisation: where the grammar can attempt a nesting rule X inside a
+          repetition/option/alternative that continues after X, and the continuation (or a later alternative) starts with X
+          again, X is parsed twice at the same position and nesting depth d costs 2^d - "fails to terminate" for every
+          practical purpose well inside the property's depth bound of 64.  Such sites are found on the grammar AST (left
+          corners, nullability, reachability) and reported.
+Not decided: termination of recursion / stack depth in general; panics inside pest itself beyond the Pratt shape rule.
 """
 import re
 
@@ -345,11 +350,104 @@ def loop_obligations(F, res, reach, crates=("tx3_lang",), rule="LOOP", rows=None
     res.count("natural loops", n)
 
 
+def _roots(F, g, du, op):
+    """(argument local, first-level field) pairs an operand derives from, crossing calls"""
+    from .. import e9_attrib as e9
+    out = set()
+    for a in range(1, g.get("argc", 0) + 1):
+        flds, _, _ = e9.deep_sources(F, g, du, op, self_local=a)
+        for x in flds:
+            out.add((a, x))
+    return out
+
+
+def _track_and_analyze(F, g):
+    """[(kind, roots, line)] for Scope::track_* calls (value arguments) and Analyzable::analyze calls (receiver) in g"""
+    du = mir.DefUse(g)
+    out = []
+    for bi, t in mir.calls(g):
+        c = t.get("callee") or ""
+        if re.search(r"Scope>::track_\w+$", c) and len(t["args"]) >= 2:
+            r = set()
+            for a in t["args"][1:]:
+                r |= _roots(F, g, du, a)
+            out.append(("track", r, t["line"], bi, c.split("::")[-1]))
+        elif t.get("trait") == "tx3_lang::analyzing::Analyzable" and t.get("method") == "analyze":
+            out.append(("analyze", _roots(F, g, du, t["args"][0]), t["line"], bi, "analyze"))
+    return out
+
+
+def growth_obligations(F, res, reach):
+    """GROWTH: a *pass loop* (a loop that runs the same analysis again, not a loop over items) must not, in every pass, store a
+    clone of a node in the scope and then analyse that same node against the scope: the analysis copies the scope's symbols
+    (deep clones of the previous snapshot) into the node, so a node that mentions itself k times grows k-fold per pass."""
+    n = 0
+    for p in sorted(reach):
+        f = F.built.get(p, F.fns[p])
+        if f["crate"] != "tx3_lang" or is_derive(f) or "::analyzing::" not in p:
+            continue
+        cfg = mir.CFG(f)
+        loops = cfg.loops()
+        for h, body in sorted(loops.items()):
+            # pass loop: not driven by an iterator over a collection (a counter compared with a bound, or a Range of integers)
+            nexts = [f["blocks"][b]["t"] for b in body if f["blocks"][b]["t"]["k"] == "call" and f["blocks"][b]["t"].get("method") in ("next", "next_back") and f["blocks"][b]["t"].get("trait") == "std::iter::Iterator"]
+            driven_by_collection = False
+            for t in nexts:
+                ty = " ".join(t.get("gargs") or [])
+                # the outermost loop's own driver is the `next` whose block is the header (or its immediate successor)
+                if f["blocks"][h]["t"] is t or t.get("line") == f["blocks"][h]["t"].get("line"):
+                    if not re.search(r"std::ops::Range(Inclusive)?<(u|i)\d+|usize|isize>", ty) and "Range<" not in ty:
+                        driven_by_collection = True
+            if driven_by_collection:
+                continue
+            n += 1
+            evs = []
+            # events in the body, plus one level of workspace callees
+            allev = _track_and_analyze(F, f)
+            evs = [e for e in allev if e[3] in body]
+            sub = []
+            for b in body:
+                t = f["blocks"][b]["t"]
+                if t["k"] == "call":
+                    r = t.get("resolved") or t.get("callee") or ""
+                    g = F.fns.get(r)
+                    if g is not None and g["crate"] == "tx3_lang" and "::analyzing::" in r and t.get("method") != "analyze" and not re.search(r"track_\w+$", r):
+                        for e in _track_and_analyze(F, g):
+                            sub.append((e, g))
+            key = "%s|pass loop does not re-track and re-analyse the same node" % p
+            hit = None
+            tr = [e for e in evs if e[0] == "track"]
+            an = [e for e in evs if e[0] == "analyze"]
+            for a in tr:
+                for b2 in an:
+                    if a[1] & b2[1]:
+                        hit = (f, a, b2)
+            if hit is None and sub:
+                by_g = {}
+                for e, g in sub:
+                    by_g.setdefault(g["path"], (g, []))[1].append(e)
+                for gp, (g, es) in by_g.items():
+                    for a in [e for e in es if e[0] == "track"]:
+                        for b2 in [e for e in es if e[0] == "analyze"]:
+                            if a[1] & b2[1]:
+                                hit = (g, a, b2)
+            w = where(f, f["blocks"][h]["t"].get("line"))
+            if hit:
+                g, a, b2 = hit
+                res.add([finding("GROWTH", key, where(g, a[2]), "every pass of the loop in %s stores a clone of the node in the scope (%s, line %s) and then analyses the same node against that scope (line %s): each pass embeds the previous snapshot once per self-mention, so a definition that mentions itself k times costs k^passes" % (
+                    p.split("::")[-1], a[4], a[2], b2[2]))])
+            else:
+                res.add([ok("GROWTH", key, w, "no track-then-analyse of one node inside this pass loop")])
+    res.count("pass loops", n)
+
+
 def run(ctx):
     F = ctx.F
     res = Result("C12")
     res.rule("PANIC", "every reachable panic site in the closure of parse_string/analyze is discharged (D-GRAMMAR, D-TEXT, structural guard, reviewed row)")
     res.rule("LOOP", "every natural loop in the closure is iterator-driven or bounded by a literal")
+    res.rule("GROWTH", "pass loops do not store a clone of a node in the scope and re-analyse the node against it (k^passes growth)")
+    res.rule("G-REPARSE", "no nesting grammar rule is parsed twice at the same position (2^depth parse time)")
     G, it = e2.analyse(F)
     res.count("parse functions interpreted against the grammar", len(it.analysed_fns))
     res.floor("parse functions interpreted against the grammar", len(it.analysed_fns), 90)
@@ -362,6 +460,22 @@ def run(ctx):
     res.floor("functions in closure", res.analysed.get("functions in closure", 0), 1500)
     res.floor("panic sites", res.analysed.get("panic sites", 0), 60)
     loop_obligations(F, res, reach)
+    growth_obligations(F, res, reach)
+    # exponential re-parsing in the grammar
+    R = e2.Reparse(F.grammar)
+    sites = R.sites()
+    nrec = len([n for n in R.rules if n in R.reach(n)])
+    res.count("recursive grammar rules", nrec)
+    res.floor("recursive grammar rules", nrec, 10)
+    seen = set()
+    for rule, what, X in sites:
+        key = "tx3.pest|%s|%s parsed twice" % (rule, X)
+        if key in seen:
+            continue
+        seen.add(key)
+        res.add([finding("G-REPARSE", key, "crates/tx3-lang/src/tx3.pest", "rule `%s`: %s; `%s` can contain `%s` again, so nesting depth d costs 2^d parser steps (pest does not memoise): parse_string does not return in practice" % (rule, what, X, rule))])
+    if not sites:
+        res.add([ok("G-REPARSE", "tx3.pest|no nesting rule is parsed twice at one position", "crates/tx3-lang/src/tx3.pest", "%d rules, %d recursive; no repetition/option/alternative that continues after a nesting rule is followed by the same rule" % (len(R.rules), nrec))])
     # recursion: listed, not decided
     res.add([assumption("RECURSION", "tx3_lang front end", "crates/tx3-lang/src", "recursion over AST depth / scope chains terminates and fits the stack for nesting <= 64 (not decided statically)")])
     return res
